@@ -127,15 +127,25 @@ where
       state.p = state.p.saturating_sub(delta);
     }
 
+    // When the resident lists are full, ARC makes room by demoting one resident to a ghost
+    // list. That resident is no longer tracked, so it must be reported to the cache as a
+    // victim; otherwise it stays in the map but can never be nominated for eviction again.
+    let mut displaced = Vec::new();
     let t2_cost = state.t2.current_total_cost();
     if state.t1.current_total_cost() + t2_cost >= self.capacity {
-      state.replace(self.capacity, key_in_b2);
+      if let Some((victim, _)) = state.replace(self.capacity, key_in_b2) {
+        displaced.push(victim);
+      }
     }
 
     // Insert the new item into T1.
     state.t1.push_front(key.clone(), cost);
 
-    AdmissionDecision::Admit
+    if displaced.is_empty() {
+      AdmissionDecision::Admit
+    } else {
+      AdmissionDecision::AdmitAndEvict(displaced)
+    }
   }
 
   fn on_remove(&self, key: &K) {
